@@ -1,30 +1,43 @@
 (* C10 - refuted parts: concrete histories of the session model (each replayed on real Pony + SQLite by the check, see
    known_findings/C10.json) on which the property fails.  Every witness is closed by vm_compute. *)
-Require Import PonyV.Model.SessionBase PonyV.Model.SessionDb PonyV.Model.Session PonyV.Model.SessionCheck.
+Require Import PonyV.Gen.SessionFlags PonyV.Model.SessionBase PonyV.Model.SessionDb PonyV.Model.Session PonyV.Model.SessionCheck.
+
+(* Witnesses of defects with a small local repair are stated under the flag of coq/Gen/SessionFlags.v (generated from /repo on every
+   run) that says the code still has the defective shape: once the repair is in /repo the flag is false and the witness is vacuous;
+   reverting the repair makes it a witness again. *)
+Ltac flagged H := first [ discriminate H | vm_compute; repeat split; reflexivity ].
 Open Scope nat_scope.
 
 Definition sch_getby : schema := [(mkEnt true [(mkAttr (KSet 1 1) false false); (mkAttr KInt false false); (mkAttr KInt true false); (mkAttr KInt false true); (mkAttr (KSet 1 3) false false); (mkAttr (KSet 1 0) false false)]); (mkEnt true [(mkAttr (KRef 0 5) false false); (mkAttr (KRef 0 0) false false); (mkAttr KStr false false); (mkAttr (KRef 0 4) true false)])].
 Definition ops_getby : list op := [(ONew 0 None [(1, (AInt 1%Z)); (2, (AInt 1%Z)); (3, ANone); (5, (AObjs []))]); (ONew 1 None [(0, (AObj 0)); (3, (AObj 0))])].
 
 (* object 1 (entity 1, new) refers to object 0 (entity 0, new) through attribute 0; E1.get(a0=<object 0>) answers None *)
-Theorem C10_refuted_get_by_unsaved_reference :
+Theorem C10_refuted_get_by_unsaved_reference : get_binds_before_flush = true -> select_binds_before_flush = true ->
   let s := run sch_getby ops_getby in
   wf_schema sch_getby = true /\ s_dirty s = 0 /\ s_declined s = false /\
   obj_ent s 1 = 1 /\ obj_val s 1 0 = Some (VRef 0) /\ is_del (obj_st s 1) = false /\
   snd (getby_op sch_getby s 1 0 (AObj 0)) = RNoneObj /\ snd (select_op sch_getby s 1 0 (AObj 0)) = RObjs [].
-Proof. vm_compute. repeat split; reflexivity. Qed.
+Proof. intros G S. first [ discriminate G | discriminate S | vm_compute; repeat split; reflexivity ]. Qed.
 Print Assumptions C10_refuted_get_by_unsaved_reference.
 
 Definition sch_count : schema := [(mkEnt true [(mkAttr (KRef 1 3) false false); (mkAttr (KSet 1 1) false false); (mkAttr KInt false true)]); (mkEnt false [(mkAttr (KRef 2 0) true false); (mkAttr (KRef 0 1) false false); (mkAttr KStr false false); (mkAttr (KSet 0 0) false false); (mkAttr KInt false true); (mkAttr KStr true false)]); (mkEnt false [(mkAttr (KSet 1 0) false false); (mkAttr KStr false false); (mkAttr KInt false true); (mkAttr KInt false true)])].
 Definition ops_count : list op := [(ONew 2 (Some 5%Z) [(3, (AInt 0%Z))]); (ONew 1 (Some 4%Z) [(0, (AObj 0)); (1, ANone); (3, (AObjs [])); (5, (AStr [120%Z]))]); (ORemove 0 0 [1])].
 
-(* x.coll.remove([item]) where the reverse reference is Required (the item is deleted): the collection is empty, count() is -1 *)
-Theorem C10_refuted_count_after_remove :
+(* x.coll.remove([item]) where the reverse reference is Required (the item is deleted): the collection is empty, count() was -1.
+   Repaired in /repo by commit 11753a1 (SetInstance.remove returns after the reverse updates for one-to-many). *)
+Theorem C10_refuted_count_after_remove : remove_rebooks_one_to_many = true ->
   let s := run sch_count ops_count in
   wf_schema sch_count = true /\ s_dirty s = 0 /\ s_declined s = false /\
   sd_items (get_sd s 0 0) = [] /\ snd (count_op sch_count s 0 0) = RInt (-1).
-Proof. vm_compute. repeat split; reflexivity. Qed.
+Proof. intros F. flagged F. Qed.
 Print Assumptions C10_refuted_count_after_remove.
+
+(* the same history with the repaired code: count() is 0 *)
+Theorem C10_count_after_remove_repaired : remove_rebooks_one_to_many = false ->
+  let s := run sch_count ops_count in
+  s_dirty s = 0 /\ sd_items (get_sd s 0 0) = [] /\ snd (count_op sch_count s 0 0) = RInt 0.
+Proof. intros F. flagged F. Qed.
+Print Assumptions C10_count_after_remove_repaired.
 
 Definition sch_rassert : schema := [(mkEnt false [(mkAttr KStr true true); (mkAttr (KSet 1 3) false false); (mkAttr (KSet 1 1) false false); (mkAttr (KRef 1 0) false false)]); (mkEnt false [(mkAttr (KSet 0 3) false false); (mkAttr (KRef 0 2) true false); (mkAttr KInt true false); (mkAttr (KRef 0 1) false false); (mkAttr KInt false false)])].
 Definition ops_rassert : list op := [(ONew 0 (Some 1%Z) [(0, (AStr [120%Z]))]); (ONew 1 (Some 1%Z) [(0, (AObjs [0])); (1, (AObj 0)); (2, (AInt 3%Z)); (3, (AObj 0)); (4, (AInt 3%Z))]); (OGetBy 1 3 (AObj 0))].
